@@ -363,3 +363,87 @@ func VHSortedLong() {
 	vAssert(s.Len() == 0, "long history: everything removed")
 	vCover("sorted long done")
 }
+
+// VHNewSortedLong: NewSorted / NewSortedOrdered over long unsorted inputs (lengths around the
+// run and merge boundaries a hand-written sort would use: 8, 16, 17, 24, 25, 32, 33, 48, 49,
+// 64, 65, 96, 100), in several concrete arrangements: the result is
+// sorted, holds exactly the input's multiset (duplicates included), and the input is untouched.
+func VHNewSortedLong() {
+	lens := []int{8, 9, 16, 17, 24, 25, 32, 33, 48, 49, 64, 65, 96, 100}
+	n := lens[vChoose("len", len(lens))]
+	// (concrete values: every comparison is then decided without the solver; a symbolic offset
+	// would make each of the several thousand comparisons a query over an ever longer path)
+	off := []int{0, -1000}[vChoose("offset", 2)]
+	in := make([]int, n)
+	switch vChoose("arrangement", 5) {
+	case 0: // descending
+		for i := range in {
+			in[i] = n - i
+		}
+	case 1: // scrambled (stride coprime to every length used)
+		for i := range in {
+			in[i] = (i * 37) % 101
+		}
+	case 2: // few distinct keys
+		for i := range in {
+			in[i] = (i*7 + 3) % 5
+		}
+	case 3: // sorted runs of 8 in descending run order
+		for i := range in {
+			in[i] = (n/8-i/8)*8 + i%8
+		}
+	case 4: // ascending except the last element, which is the smallest
+		for i := range in {
+			in[i] = i + 1
+		}
+		in[n-1] = 0
+	}
+	for i := range in {
+		in[i] += off
+	}
+	snap := append([]int(nil), in...)
+	desc := vChoose("desc", 2) == 1
+	var s Sorted[int]
+	if desc {
+		s = NewSorted(in, func(a, b int) bool { return a > b })
+	} else if vChoose("ordered", 2) == 1 {
+		s = NewSortedOrdered(in...)
+	} else {
+		s = NewSorted(in, func(a, b int) bool { return a < b })
+	}
+	vAssert(s.Len() == n, "NewSorted (long): every input value is in the result")
+	for i := range in {
+		vAssert(in[i] == snap[i], "NewSorted (long): the input slice is neither reordered nor aliased")
+	}
+	// sorted, and the same multiset: compare with a counting sort of the concrete keys
+	cnt := map[int]int{}
+	lo, hi := snap[0]-off, snap[0]-off
+	for _, v := range snap {
+		k := v - off
+		cnt[k]++
+		if k < lo {
+			lo = k
+		}
+		if k > hi {
+			hi = k
+		}
+	}
+	var want []int
+	for k := lo; k <= hi; k++ {
+		for c := 0; c < cnt[k]; c++ {
+			want = append(want, k+off)
+		}
+	}
+	for i := 0; i < n && i < s.Len(); i++ {
+		j := i
+		if desc {
+			j = n - 1 - i
+		}
+		vAssert(s.Get(i) == want[j], "NewSorted (long): the contents are the input's values in order")
+	}
+	s.Add(lo + off - 1)
+	vAssert(s.Len() == n+1, "NewSorted (long): the result is usable")
+	if n >= 33 {
+		vCover("newsorted long n >= 33")
+	}
+}
